@@ -551,6 +551,11 @@ func (r *Router) Close() error {
 
 	if r.closed {
 		r.logger.Debug("Already closed", nil)
+		// a previous Close may have given up waiting (CloseTimeout):
+		// do not report success while handlers are still running
+		if timedout := r.waitForHandlers(); timedout {
+			return errors.New("router close timeout")
+		}
 		return nil
 	}
 
